@@ -336,10 +336,16 @@ def deletion_rules(repo):
         a, b = (n.body, n.orelse) if pos else (n.orelse, n.body)
         ta = unparse(a[0]) if a else ""
         tb = unparse(b[0]) if b else ""
-        if ta != "X = X[:, :, -X_var.shape[-1]:]" or tb != "X = X[:, :, :X_var.shape[-1]]":
+        swapped = ta == "X = X[:, :, :X_var.shape[-1]]" and tb == "X = X[:, :, -X_var.shape[-1]:]"
+        if swapped:
+            probs.append((n, "the reference is trimmed from the opposite side of the edited sequence: left=True keeps the FIRST positions of X "
+                             "while the flank search removed positions counted from the left"))
+        elif ta != "X = X[:, :, -X_var.shape[-1]:]" or tb != "X = X[:, :, :X_var.shape[-1]]":
             probs.append((n, "left=True keeps `%s`, left=False keeps `%s`; expected the last / first X_var.shape[-1] positions" % (ta, tb)))
     if probs:
         kind = violation if not any("not recognised" in w or "expected two" in w or "expected one" in w for _, w in probs) else unrecognised
+        if kind is violation and "opposite side" in probs[0][1]:
+            kind = named
         out.append(kind("R-SIB", fi, role, probs[0][1], probs[0][0]))
     else:
         out.append(holds("R-SIB", fi, role, "%d orientation selections + trim of X keyed on the same flag" % len(ifexps), ifexps[0]))
@@ -421,7 +427,7 @@ def insertion_rules(repo):
         pos, ch = tg[1], tg[2]
         st = unparse(kwarg(c, "start", 2))
         body = [unparse(s) for s in il.body]
-        okv = any(("v = torch.zeros(1, %s.shape[1], 1)" % b_) in body for b_ in ("X", "x")) and "v[:, %s] = 1" % ch in body
+        okv = any(("v = torch.zeros((1, %s.shape[1], 1))" % b_) in body for b_ in ("X", "x")) and "v[:, %s] = 1" % ch in body
         if st != pos:
             out.append(violation("INS", fi, role, "insert(..., start=%s): expected the row's coordinate `%s`" % (st, pos), c))
         elif not okv:
